@@ -99,7 +99,7 @@ META["C01"] = {
 
 META["C02"] = {
     "title": "After unsubscribe() returns the subscriber is never called again",
-    "rule": "cases = (random pipeline biased to scheduler-using operators, timed scripts, schedule seed, cut step, unsubscribe() | guard drop). A dry run finds the schedule length and the step of the first terminal; the cut is then placed uniformly before the terminal (5/6) or anywhere (1/6). After the cut the explorer keeps going: remaining events are injected, every pending timer fired, every ready task run. Non-trivial: cut before the terminal while a timer was pending, a task ready, or script events still to come; distinct = hash(pipeline, scripts, flavour, cut step, schedule seed). cut_* counters give the histogram of where cuts fell.",
+    "rule": "cases = (random pipeline biased to scheduler-using operators, timed scripts, schedule seed, cut step, unsubscribe() | guard drop). A dry run finds the schedule length and the step of the first terminal; the cut is then placed uniformly before the terminal (5/6) or anywhere (1/6). After the cut the explorer keeps going: remaining events are injected, every pending timer fired, every ready task run. Non-trivial: cut before the terminal while a timer was pending, a task ready, or script events still to come; distinct = hash(pipeline, scripts, flavour, cut step, schedule seed). cut_* counters give the histogram of where cuts fell. A share of the cases (counter runs_on_the_real_LocalPool) is built with the library's own `impl Scheduler for futures::executor::LocalSpawner` and run on the real futures LocalPool (run_until_stalled / try_run_one) instead of the harness executor.",
     "assumptions": COMMON_ASSUME + [
         "deliveries are judged by their logical begin-stamp against the stamp taken when unsubscribe() returned (single-threaded part: nothing can be in flight at that moment)",
         "the racing-thread part (emitter vs unsubscriber under the baton scheduler) is reported under the same check when present in the evidence (thread_* counters)",
@@ -141,7 +141,7 @@ META["C06"] = {
 
 META["C08"] = {
     "title": "Time and async sources emit exactly what and when they promise",
-    "rule": "cases = (source, take count, local|threads scheduler form, FIFO|any task order, due-stepping|late schedule, schedule seed). Sources: interval / interval_at with periods {1,7,100} ms and instants {past, now, +10ms, +250ms, +1h}; timer / timer_at with delays {0,1,7,100} ms and the same instants; from_future(_result) / from_stream(_result) over scripted futures/streams (ready at once, pending k polls self-woken or woken by the explorer, error at position i, empty). Due-stepping runs fire one due timer at a time and run tasks to quiescence (exact 'one period' oracle); late runs leave tasks waiting and jump the clock ('never earlier' oracle). Non-trivial: >= 2 ticks observed, or the future/stream was pending at least once; distinct = hash(case).",
+    "rule": "cases = (source, take count, local|threads scheduler form, FIFO|any task order, due-stepping|late schedule, schedule seed). Sources: interval / interval_at with periods {1,7,100} ms and instants {past, now, +10ms, +250ms, +1h}; timer / timer_at with delays {0,1,7,100} ms and the same instants; from_future(_result) / from_stream(_result) over scripted futures/streams (ready at once, pending k polls self-woken or woken by the explorer, error at position i, empty). Due-stepping runs fire one due timer at a time and run tasks to quiescence (exact 'one period' oracle); late runs leave tasks waiting and jump the clock ('never earlier' oracle). Non-trivial: >= 2 ticks observed, or the future/stream was pending at least once; distinct = hash(case). A share of the cases (counter runs_on_the_real_LocalPool) is built with the library's own `impl Scheduler for futures::executor::LocalSpawner` and run on the real futures LocalPool (run_until_stalled / try_run_one) instead of the harness executor.",
     "assumptions": COMMON_ASSUME + [
         "the _at forms read the real Instant::now(): the instant is placed relative to the case's start and the real time the case took (plus 1 ms) is the tolerance on 'never earlier'; 'exactly' is only demanded of due-stepping runs on the virtual clock",
         "for an instant that has already passed the first interval_at tick may come anywhere between 'now' and one period later",
@@ -155,7 +155,7 @@ META["C08"] = {
 
 META["C07"] = {
     "title": "Scheduler-moving operators preserve the source's sequence",
-    "rule": "cases = (one or two of observe_on / delay / delay_at / delay_subscription / delay_subscription_at / subscribe_on in local or _threads form, optionally between transparent operators, timed script of 1..n uniquely numbered items (quick n=5, thorough n=9) with terminal none/complete/error and gaps {0,1,2,5,10,60} ms, delays {0,1,5,50} ms, instants {past, now, +40ms, +1h}, executor class fifo (FIFO task order, equal deadlines woken in creation order) or any-order (any ready task next, equal deadlines in any order), prompt or late schedule, schedule seed). Subscription-moving operators get a cold source. Non-trivial: at least two tasks were ready at once or a delay was pending across an input event; distinct = hash(case). A violation is blamed on the first scheduler operator of the case that shows the same violation kind alone.",
+    "rule": "cases = (one or two of observe_on / delay / delay_at / delay_subscription / delay_subscription_at / subscribe_on in local or _threads form, optionally between transparent operators, timed script of 1..n uniquely numbered items (quick n=5, thorough n=9) with terminal none/complete/error and gaps {0,1,2,5,10,60} ms, delays {0,1,5,50} ms, instants {past, now, +40ms, +1h}, executor class fifo (FIFO task order, equal deadlines woken in creation order) or any-order (any ready task next, equal deadlines in any order), prompt or late schedule, schedule seed). Subscription-moving operators get a cold source. Non-trivial: at least two tasks were ready at once or a delay was pending across an input event; distinct = hash(case). A violation is blamed on the first scheduler operator of the case that shows the same violation kind alone. A share of the cases (counter runs_on_the_real_LocalPool) is built with the library's own `impl Scheduler for futures::executor::LocalSpawner` and run on the real futures LocalPool (run_until_stalled / try_run_one) instead of the harness executor.",
     "assumptions": COMMON_ASSUME + [
         "item identity by unique ids; 'never earlier' is judged on virtual stamps: delivery >= emission + sum of configured delays; for _at forms the real time the case took (+1 ms) is the tolerance",
         "the any-order executor models a k-worker pool; the real futures ThreadPool is not under the explorer's control",
@@ -169,7 +169,7 @@ META["C07"] = {
 
 META["C09"] = {
     "title": "Rate-limiting operators never invent, duplicate or reorder items",
-    "rule": "cases = (operator in debounce / throttle_time / throttle(duration selector) with all three edge modes / sample(interval) / buffer_with_time / buffer_with_count_and_time, window in {1,5,10} ms, timed script of 0..n uniquely numbered items (quick n=5, thorough n=9) whose gaps are 0, 1, window-1, window, window+1, 2*window(+1) ms, terminal none/complete/error, scheduler form, task order fifo|any, prompt|late schedule, seed). Every order of a source event and a timer falling due at the same instant is an explorer choice. Non-trivial: at least one item was suppressed or buffered AND at least one emission happened at an instant with no source event (i.e. was made by a timer); distinct = hash(case).",
+    "rule": "cases = (operator in debounce / throttle_time / throttle(duration selector) with all three edge modes / sample(interval) / buffer_with_time / buffer_with_count_and_time, window in {1,5,10} ms, timed script of 0..n uniquely numbered items (quick n=5, thorough n=9) whose gaps are 0, 1, window-1, window, window+1, 2*window(+1) ms, terminal none/complete/error, scheduler form, task order fifo|any, prompt|late schedule, seed). Every order of a source event and a timer falling due at the same instant is an explorer choice. Non-trivial: at least one item was suppressed or buffered AND at least one emission happened at an instant with no source event (i.e. was made by a timer); distinct = hash(case). A share of the cases (counter runs_on_the_real_LocalPool) is built with the library's own `impl Scheduler for futures::executor::LocalSpawner` and run on the real futures LocalPool (run_until_stalled / try_run_one) instead of the harness executor.",
     "assumptions": COMMON_ASSUME + [
         "invariants (only source items, at most once, in source order, source's terminal, buffers non-empty / <= count / concatenating to the source on completion) are checked on every run; the exact debounce and throttle models are applied to prompt runs only and branch where a source event coincides with a window end (either order accepted); late runs are judged by 'never earlier than arrival + window'",
         "throttle model: leading edge emits the window-opening item at once; trailing edge emits the last item of the window at window end (in trailing-only mode the opener counts), each item at most once; the trailing emission does not open a window; completion flushes the trailing item",
